@@ -272,8 +272,12 @@ class IntervalTier(textgrid_tier.TextgridTier):
             newEntryList.append(Interval(newStart, newEnd, interval.label))
 
         # Determine new min and max timestamps
-        newMin = min([interval.start for interval in newEntryList])
-        newMax = max([interval.end for interval in newEntryList])
+        newMin = min(
+            [interval.start for interval in newEntryList], default=self.minTimestamp
+        )
+        newMax = max(
+            [interval.end for interval in newEntryList], default=self.maxTimestamp
+        )
 
         if newMin > self.minTimestamp:
             newMin = self.minTimestamp
